@@ -31,6 +31,8 @@ type elObj struct {
 	afterStart        bool
 	nTrans            int // transitions recorded by this object
 	startInFlight     int // Start calls of this object that have not returned yet
+	stopsDuringStart  int  // stop calls invoked while a Start was in flight that have not turned out to be no-ops
+	startOKPending    bool // a Start succeeded but overlapping stop calls are still undecided
 	terms             int
 	demoteReg         bool   // OnDemote is registered
 	demoteRegStep     uint64 // ... since this driver step (0 = before Start)
@@ -68,6 +70,7 @@ type Inst struct {
 	startedAt      time.Duration
 	watchOK        bool
 	stopInvoked    int // stop calls invoked so far
+	nStarted       int // Start calls that succeeded so far
 	parkedYields   int
 	inflightOps    int
 	apiBusy        int
@@ -438,7 +441,7 @@ func (d *Driver) doAction(a *Action) {
 		d.notify(o, a.Kind)
 		return
 	case ARestart, AStart:
-		if in.inStopCall > 0 && !d.free {
+		if in.inStopCall > 0 && !d.free && !d.plan.StartDuringStop {
 			// Start while a stop call of the same instance has not returned: the properties speak
 			// about what holds "after Stop returns ... until a later Start"; a Start that overlaps
 			// the stop call makes that window meaningless, so the deterministic families do not
@@ -485,6 +488,11 @@ func (d *Driver) doAction(a *Action) {
 		in.inStopCall++
 		in.stopInvoked++
 		in.running = false
+		ev.startsAtInv = in.nStarted
+		if o.startInFlight > 0 {
+			ev.duringStart = true
+			o.stopsDuringStart++
+		}
 		ev.WasLeaderAtInv = o.el.IsLeader()
 		if !d.free {
 			if lv := d.store.Live(in.cfg.Group, now); lv != nil && lv.Writer == in.idx && lv.Gen == o.gen {
@@ -525,7 +533,10 @@ func (d *Driver) apiCall(in *Inst, o *elObj, a *Action, ev *ApiEvt) {
 		// Start moves the state to CANDIDATE without recording a transition; the run's first
 		// recorded transition may come before Start has returned to its caller
 		d.mu.Lock()
-		transBefore, stopsBefore := o.nTrans, in.stopInvoked
+		transBefore := o.nTrans
+		if o.startInFlight == 0 {
+			o.stopsDuringStart, o.startOKPending = 0, false
+		}
 		o.startInFlight++
 		d.mu.Unlock()
 		err = o.el.Start(ctx)
@@ -538,13 +549,17 @@ func (d *Driver) apiCall(in *Inst, o *elObj, a *Action, ev *ApiEvt) {
 			o.cancelStart = cancel
 			o.started = true
 			in.startedAt = d.now()
-			if in.stopInvoked == stopsBefore {
+			in.nStarted++
+			if o.stopsDuringStart == 0 {
 				// (a stop call invoked while Start had not yet returned to its caller comes after
-				// this start: the instance is stopping or stopped, not running)
+				// this start: the instance is stopping or stopped, not running - unless that call
+				// got in first and answers "already stopped", see below)
 				in.running = true
 				in.stopRetStep = 0
 				in.opsAfterStop = nil
 				in.watchOK = false
+			} else {
+				o.startOKPending = true
 			}
 		}
 		d.mu.Unlock()
@@ -617,7 +632,24 @@ func (d *Driver) apiCall(in *Inst, o *elObj, a *Action, ev *ApiEvt) {
 	switch a.Kind {
 	case AStop, AStopCtx:
 		in.inStopCall--
-		if err == nil {
+		if ev.duringStart && err == leader.ErrAlreadyStopped {
+			// the stop call overtook the Start it overlapped: it found the object not started and
+			// did nothing; the Start that came after it stands
+			o.stopsDuringStart--
+			if o.stopsDuringStart == 0 && o.startInFlight == 0 && o.startOKPending && in.cur == o && !o.dead {
+				o.startOKPending = false
+				in.running = true
+				in.stopRetStep = 0
+				in.opsAfterStop = nil
+				in.watchOK = false
+				d.probe("noop_stop_overtook_start")
+			}
+		}
+		if in.nStarted != ev.startsAtInv {
+			// a Start succeeded while this stop call was in progress: a new run began, and this
+			// call's return is not "the instance is stopped"
+			d.probe("stop_returned_after_restart")
+		} else if err == nil {
 			in.stopRetStep = d.step
 			if in.stopRetStep == 0 {
 				in.stopRetStep = 1
